@@ -10,7 +10,7 @@ Line-protocol driver for C02.  All arguments are ints:
   `R` → write, re-read with the reader model of C03, judge under the written order: `ok iso <text>` | `ok DIFF <what> <text>` | …
   `C` → structural checkers on the writer's intermediate results (spanning tree, closures, parentheses, numbers)
   `H` → closure-number allocator alone: `H n (k cycle*)*` → numbers per atom | `err crash:IndexError`
-  `D` → the DFS result of every round (`start;visited;edges;tokens`, dict orders kept) — compared with the locals of the real
+  `D` → the DFS result of every round (`start;visited;tree;closure bonds`) — compared with the locals of the real
         `_smiles` frame captured after its DFS loop
 -/
 open ChythonModel.Py ChythonModel.Model ChythonModel.Model.SmilesWriter ChythonModel.Model.C02RT
@@ -94,12 +94,14 @@ def showWTok : WTok → String
   | .rpar => ")"
   | .dot => "."
 
-/-- DFS result of every round: `start;visited;edges;tokens` in dict (insertion) order -/
+/-- DFS result of every round: `start;visited (discovery order);tree (parent>children in discovery order, parents sorted);
+    closure bonds (sorted pairs)` — cycle ids and dict orders, which nothing observable depends on, are not shown -/
 def showDfs (rs : List Round) : String :=
   " / ".intercalate (rs.map fun r =>
     s!"{r.start};" ++ ",".intercalate (r.visited.map toString) ++ ";" ++
-    " ".intercalate (r.edges.map fun (p, cs) => s!"{p}>" ++ ",".intercalate (cs.map toString)) ++ ";" ++
-    " ".intercalate (r.tokens.map fun (a, l) => s!"{a}>" ++ ",".intercalate (l.map fun (b, c) => s!"{b}:{c}")))
+    " ".intercalate ((sortByNat (fun (e : Nat × List Nat) => e.1) r.edges).map fun (p, cs) => s!"{p}>" ++ ",".intercalate (cs.map toString)) ++ ";" ++
+    " ".intercalate ((sortPairs (r.tokens.flatMap fun (a, l) => l.filterMap fun (b, _) => if a < b then some (a, b) else none)).map
+      fun (a, b) => s!"{a}-{b}"))
 
 def parseH : Nat → List Int → Option (List (List Nat))
   | 0, [] => some []
